@@ -1,6 +1,5 @@
 from __future__ import annotations
 
-from copy import deepcopy
 from dataclasses import dataclass
 import sys
 from typing import TypeVar
@@ -144,7 +143,9 @@ class DynamicStructuredGrammaticalEvolutionRepresentation(
         return random_tree(DynamicSGESource(decider), self.grammar, decider)
 
     def mutate(self, random: RandomSource, genotype: Genotype, **kwargs) -> Genotype:
-        dna = deepcopy(genotype.dna)
+        # The keys are types: they must stay the very same objects (a deep copy of Union[...] or
+        # Annotated[...] keys is no longer equal to the type the mapping looks up).
+        dna = {k: list(v) for k, v in genotype.dna.items()}
         alternatives = list(genotype.dna.keys())
         if alternatives:
             rkey = random.choice(alternatives)
@@ -167,9 +168,9 @@ class DynamicStructuredGrammaticalEvolutionRepresentation(
         c2 = dict()
         for k, b in mask:
             if b:
-                c1[k] = deepcopy(parent1.dna.get(k, []))
-                c2[k] = deepcopy(parent2.dna.get(k, []))
+                c1[k] = list(parent1.dna.get(k, []))
+                c2[k] = list(parent2.dna.get(k, []))
             else:
-                c1[k] = deepcopy(parent2.dna.get(k, []))
-                c2[k] = deepcopy(parent1.dna.get(k, []))
+                c1[k] = list(parent2.dna.get(k, []))
+                c2[k] = list(parent1.dna.get(k, []))
         return (Genotype(parent1.random, c1), Genotype(parent2.random, c2))
